@@ -882,6 +882,9 @@ namespace CDNS {
      * @brief Class representing C-DNS block
      */
     class CdnsBlock {
+#ifdef CDNS_VERIF
+        friend struct ::cdns_verif::Access;
+#endif
         public:
 
         /**
@@ -1411,6 +1414,9 @@ namespace CDNS {
      * block's data directly the block object can be cast to the base class CdnsBlock.
      */
     class CdnsBlockRead : public CdnsBlock {
+#ifdef CDNS_VERIF
+        friend struct ::cdns_verif::Access;
+#endif
         public:
         /**
          * @brief Default constructor
